@@ -496,7 +496,11 @@ ObsVerdict(o, rec) ==
             /\ rec.parsing_errors = 0 /\ rec.hook_errors > 0
   IN Chk(o, rec, {<<rec.writer_panic = "", "C01", "writer-pipeline-panicked">>,
                   <<rec.writer_panic # "" \/ rec.failed = expected \/ f1, "C01", "verdict-differs-from-final-failure">>,
-                  <<~f1, "C01", "run-failed-only-by-hook-failure-of-a-retried-attempt">>})
+                  <<~f1, "C01", "run-failed-only-by-hook-failure-of-a-retried-attempt">>,
+                  \* `run_and_exit` (driven through the real Cucumber event loop) panics iff the
+                  \* statistics writer says the execution has failed
+                  <<rec.writer_panic # "" \/ rec.exit_failed = rec.failed, "C01",
+                    "run_and_exit-does-not-follow-the-statistics-verdict">>})
 
 ---------------------------------------------------------------------------
 Obs(o, rec) ==
